@@ -10,7 +10,7 @@ BASE = dict(
     TreasuryAddr='""', OracleAddr='"oracle"', MinStake="2", BatchPeriod="2", Unbonding="2",
     RcvKinds='{"self", "native"}', Outcomes='{"ok"}', SubmitFails="{}", Returns='{"exact", "short"}',
     Principals='{"u1", "admin"}', AdminOps="TRUE", ResumeScales='{"same"}', StartHalted="FALSE",
-    Extras='{"wrongsender"}', MaxTime="6", MaxBatches="2", MaxSeq="3", MaxN="6", MaxPk="3", EmitTests="FALSE",
+    SamePrefix="FALSE", Extras='{"wrongsender"}', MaxTime="6", MaxBatches="2", MaxSeq="3", MaxN="6", MaxPk="3", EmitTests="FALSE",
 )
 INVS = "P_C01 P_C01b P_C02 P_C03 P_C05 P_C06 P_C07 P_C11 P_C16 P_NonNeg"
 PROPS = "A_C06 A_C04 A_C10"
@@ -26,6 +26,11 @@ CFGS = {
     # a fee rate above 100 %: every reward must be refused (fee exceeds the reward)
     "fee150_q": dict(FeeRate="150000", UnstakeAmts="{}", RewardAmts="{1, 2, 3}", RcvKinds='{"self"}', Returns="{}", MaxBatches="1",
                      MaxN="6", MaxSeq="3", MaxPk="3", MaxTime="0", AdminOps="FALSE", Extras="{}"),
+    # both chains share one bech32 prefix: the transfer_to_native_chain flag (none / false / true) decides the route
+    "same_q": dict(SamePrefix="TRUE", Outcomes='{"ok", "err"}', Returns="{}", RewardAmts="{2}", MaxBatches="1", MaxN="6", MaxSeq="4", MaxPk="3",
+                   MaxTime="0", AdminOps="FALSE", Extras="{}"),
+    "same_t": dict(SamePrefix="TRUE", Outcomes='{"ok", "err"}', Returns='{"exact"}', RewardAmts="{2}", MaxBatches="2", MaxN="6", MaxSeq="4", MaxPk="3",
+                   MaxTime="3", AdminOps="FALSE", Extras="{}"),
     # IBC faults: every outcome for every packet, refused submissions, permissionless and forced recovery
     "ibc_q": dict(Extras='{"stray"}', Outcomes='{"ok", "err", "timeout"}', SubmitFails="{0}", Returns='{"exact"}', UnstakeAmts="{3}",
                   RewardAmts="{}", MaxBatches="1", MaxN="6", MaxSeq="4", MaxPk="3", MaxTime="0"),
